@@ -104,7 +104,7 @@ def build(case):
             res = ("ok", cls)
         except InvalidDefinition as e:
             res = ("invalid", str(e))
-    uw = [x for x in w if issubclass(x.category, UserWarning) and ("outgoing transition" in str(x.message) or "path to a final" in str(x.message))]
+    uw = [x for x in w if issubclass(x.category, UserWarning)]  # whatever its wording
     return res, uw
 
 
